@@ -32,7 +32,7 @@ func init() {
 		fn   func(c *Ctx, frozen bool, r *rand.Rand, rep int)
 	}{
 		{"w1-roundrobin", c09RoundRobin}, {"w2-rebalancer", c09Rebalancer}, {"w3-breaker", c09Breaker}, {"w4-rtmetrics", c09RTMetrics},
-		{"w5-ratelimit", c09RateLimit}, {"w6-connlimit", c09ConnLimit}, {"w7-tracer", c09Tracer}, {"w8-fullstack", c09FullStack}, {"w9-buffer-stream-forward", c09BufferEtc},
+		{"w10-buffer-retry-forward", c09BufferRetryForward}, {"w5-ratelimit", c09RateLimit}, {"w6-connlimit", c09ConnLimit}, {"w7-tracer", c09Tracer}, {"w8-fullstack", c09FullStack}, {"w9-buffer-stream-forward", c09BufferEtc},
 	} {
 		w := w
 		parts = append(parts, Part{Name: w.name, Race: true, Shards: 1, Fn: func(c *Ctx) {
@@ -50,7 +50,7 @@ func init() {
 	register(&Property{
 		ID:    "C09",
 		Level: "exploration",
-		Rule: "nine workloads, each 8-32 goroutines behind a start barrier, few keys, thousands of operations, built with -race and run in its own child process with GORACE=halt_on_error=0 and a log file: W1 RoundRobin serve (with and without sticky cookie) || upsert/remove/re-weight/Servers/ServerWeight/NextServer; W2 Rebalancer likewise with real code meters, failing backends and scripted meters (1ms back-off); W3 breaker cycling standby/tripped/recovering with side effects; W4 RTMetrics Record || every getter || Export/Append/Reset; W5 TokenLimiter with more sources than capacity; W6 ConnLimiter with panicking handlers; W7 Tracer; W8 full stack trace->connlimit->ratelimit->breaker->rebalancer->buffer->forwarder->real backends; W9 Buffer (retries, spills), Stream and forwarder alone; " +
+		Rule: "nine workloads, each 8-32 goroutines behind a start barrier, few keys, thousands of operations, built with -race and run in its own child process with GORACE=halt_on_error=0 and a log file: W1 RoundRobin serve (with and without sticky cookie) || upsert/remove/re-weight/Servers/ServerWeight/NextServer; W2 Rebalancer likewise with real code meters, failing backends and scripted meters (1ms back-off); W3 breaker cycling standby/tripped/recovering with side effects; W4 RTMetrics Record || every getter || Export/Append/Reset; W5 TokenLimiter with more sources than capacity; W6 ConnLimiter with panicking handlers; W7 Tracer; W8 full stack trace->connlimit->ratelimit->breaker->rebalancer->buffer->forwarder->real backends; W9 Buffer (retries, spills), Stream and forwarder alone; W10 Buffer with retries in front of the forwarder and a backend that answers 502 before it has read a large request body (the transport is still writing the body of the failed attempt when the retry rewinds it); " +
 			"each workload runs on the frozen clock (advanced by a ticker goroutine) and again on the real clock with millisecond durations; oracle = race-detector reports with an oxy frame in one of the two access stacks (de-duplicated by innermost oxy frame pair) plus exact counter totals (frozen clock) and one well-formed JSON line per traced request; non-trivial/distinct = (workload, clock mode, repetition) executed to completion",
 		Assumptions: []string{"happens-before analysis covers executed paths only; the frozen clock's own mutex adds edges, which is why every workload is also run on the real clock", "Tracer is given a synchronised io.Writer (a caller-supplied non-thread-safe writer is the caller's responsibility)"},
 		Parts:       parts,
@@ -524,3 +524,44 @@ func (fmtLogger) Debug(m string, a ...any) { fmt.Fprintf(io.Discard, m, a...) }
 func (fmtLogger) Info(m string, a ...any)  { fmt.Fprintf(io.Discard, m, a...) }
 func (fmtLogger) Warn(m string, a ...any)  { fmt.Fprintf(io.Discard, m, a...) }
 func (fmtLogger) Error(m string, a ...any) { fmt.Fprintf(io.Discard, m, a...) }
+
+// c09BufferRetryForward: the buffer retries through the real forwarder; the backend answers 502 at once, without
+// reading the (large) request body, so net/http's transport may still be sending the body of the failed attempt
+// from its own goroutine when the buffer rewinds it for the next attempt.
+func c09BufferRetryForward(c *Ctx, frozen bool, r *rand.Rand, rep int) {
+	if frozen {
+		return
+	}
+	var n atomic.Int64
+	back := newTestServer(http.HandlerFunc(func(w http.ResponseWriter, req *http.Request) {
+		if n.Add(1)%2 == 1 {
+			w.WriteHeader(502) // early answer: the body is not read
+			return
+		}
+		b, _ := io.ReadAll(req.Body)
+		w.Header().Set("X-Len", sfmt("%d", len(b)))
+		w.WriteHeader(200)
+	}))
+	defer back.Close()
+	fwd := forward.New(false)
+	fwd.Transport = &http.Transport{MaxIdleConnsPerHost: 32}
+	buf, _ := buffer.New(fwd, buffer.Retry(`IsNetworkError() && Attempts() <= 4`), buffer.MemRequestBodyBytes(8<<20))
+	target := mustURL(back.URL)
+	per := c.N(10, 120)
+	var wrong atomic.Int64
+	runN(8, per, func(g, k int) {
+		size := 200000 + (k%5)*150000
+		req := httptest.NewRequest("POST", "http://front.test/upload", bytes.NewReader(detBody(size, uint64(g))))
+		req.URL = &url.URL{Scheme: target.Scheme, Host: target.Host, Path: "/upload"}
+		req.RequestURI = "/upload"
+		rec := httptest.NewRecorder()
+		buf.ServeHTTP(rec, req)
+		if rec.Code == 200 && rec.Header().Get("X-Len") != sfmt("%d", size) {
+			wrong.Add(1)
+		}
+	})
+	c.Count("w10_requests", int64(8*per))
+	if wrong.Load() > 0 {
+		c.Violation("w10/retried-body-damaged", sfmt("%d retried requests reached the backend with a body of the wrong length", wrong.Load()), nil)
+	}
+}
